@@ -45,7 +45,7 @@ ORDER_NAME = {"mix": "RnsToMixedRadix", "ring": "RnsToRing", "recip": "Reciproca
 # has a single odd level exactly for 2^k primes); generated on EVERY run for every history
 GRID_LENS = [1, 2, 3, 4, 5, 7, 8, 9, 15, 16, 17, 31, 32, 33]
 FIX_GRID_LENS = list(range(1, 18)) + [31, 32, 33, 63, 64, 65]
-LIFT_MODES = ["atonce", "prepared", "copies"]
+LIFT_MODES = ["atonce", "prepared", "copies", "inplace"]
 POLY_HISTS = ["fresh", "reuse", "copycold", "copywarm", "copy2"]
 POLY_DOMS = ["mi64", "mdouble", "mi32", "mu32"]
 DOMS = ["mdouble", "mi64", "mu64", "mi32", "mint", "mfloat", "mu32", "mont32", "mru7", "mlog16", "mb64", "mbd"]
@@ -270,6 +270,23 @@ def ck_oracle(ps):
     return [pow(prod(ps[:k]) % ps[k], -1, ps[k]) for k in range(1, len(ps))]
 
 
+def fixed_tree_oracle(ps):
+    """the tree RNSsystemFixed stores: level k+1 = products of the pairs of level k; in every completed pair (p0, p1) the right
+    entry is replaced by p0 * (p0^-1 mod p1); a last unpaired entry stays"""
+    tree, lv = [], list(ps)
+    while lv:
+        st, nx = [], []
+        for i in range(0, len(lv) - 1, 2):
+            p0, p1 = lv[i], lv[i + 1]
+            st += [p0, p0 * (pow(p0, -1, p1) if p1 > 1 else 0)]
+            nx.append(p0 * p1)
+        if len(lv) % 2:
+            st.append(lv[-1])
+        tree.append(st)
+        lv = nx
+    return tree
+
+
 def lagrange(p, pts, rs):
     """coefficients (low first) of the unique polynomial of degree < n over GF(p) with f(pts[i]) = rs[i]"""
     n = len(pts)
@@ -471,6 +488,10 @@ def run_resilient(binary, lines, timeout=1500, max_restarts=40):
         out += o[:len(lines) - start]
         if len(out) >= len(lines):
             break
+        if rc == 124 and "[timeout]" in e:
+            # our own time limit (machine load), not a verdict about the implementation: the rest of the stream is inconclusive
+            out += ["TIMEOUT"] * (len(lines) - len(out))
+            break
         restarts += 1
         out.append("CRASH rc=%s" % rc)
         start = len(out)
@@ -527,6 +548,9 @@ def main(tier, replay=None):
     hasg, l4 = vf.build_harness("c14_craassign.C")
     # 3. maxCardinality of the residue domains, from the implementation
     rc, mc, err = vf.run_lines(himpl, "".join("maxcard %s\n" % d for d in DOMS))
+    if rc == 124 and "[timeout]" in err:
+        chk.cov["inconclusive_streams"] = ["implementation harness hit the time limit of the check before any case ran"]
+        return chk.finish()
     if rc != 0 or len(mc) != len(DOMS):
         chk.broke("implementation harness failed on maxcard", err)
         return chk.finish()
@@ -668,6 +692,28 @@ def main(tier, replay=None):
                 ps = gen_moduli(rng, n, maxp, style, dom_pred(dom))
                 rs = gen_residues(rng, ps)
                 add_sys("rns", hist, dom, ps, rs, gen_as(rng, ps, nas if n <= 17 else 2), order=rng.choice(DOM_ORDERS))
+    # ---- documented limits, on every run: moduli at maxCardinality of every residue domain, at the top of every constructor argument type
+    gi = 0
+    for dom in DOMS:
+        if maxcard[dom] is None:
+            continue
+        for n in (1, 2, 4):
+            ps = gen_moduli(rng, n, maxcard[dom], "edge", dom_pred(dom))
+            top = prev_coprime(maxcard[dom], 1)
+            while not dom_pred(dom)(top):
+                top -= 1
+            if top not in ps:                                   # the largest admissible modulus itself is always there
+                ps = [top] + [p for p in ps if math.gcd(p, top) == 1][:n - 1]
+            rs = grid_residues(ps)
+            add_sys("rns", DOM_HISTS[gi % len(DOM_HISTS)], dom, ps, rs, grid_as(ps), order=DOM_ORDERS[gi % len(DOM_ORDERS)], grid=True)
+            gi += 1
+    for ctor in INT_CTORS[1:]:
+        for n in (1, 2, 4):
+            top = TYPE_MAX[ctor]
+            ps = [top] + [p for p in gen_moduli(rng, n, top, "edge") if math.gcd(p, top) == 1][:n - 1]
+            rs = grid_residues(ps)
+            add_sys("int", INT_HISTS[gi % len(INT_HISTS)], fit_tt(ctor, rs), ps, rs, grid_as(ps), ctor=ctor, order=INT_ORDERS[gi % len(INT_ORDERS)], grid=True)
+            gi += 1
     # the documented example of the known copy defect, and the examples of the seeded changes
     add_sys("int", "copycold", "Integer", [3, 5, 7], [1, 2, 3], [100, 7, 105, 0, -5])
     add_sys("int", "fresh", "Integer", [101, 7], [0, 3], [101, 7, 707, 706, -101])
@@ -750,15 +796,24 @@ def main(tier, replay=None):
     cases.append({"kind": "lift", "hist": "prepared", "sub": "mi64", "ps": [65521, 7], "rs": [1, 2], "impl": "lift mi64 prepared 2 65521 7 1 2",
                   "model": "lift %s 2 65521 7 1 2" % facts["cra_variant"]})
     # ---- Poly1CRT over GF(p)
-    for rnd in range(20 if quick else 400):
+    poly_jobs = []
+    # deterministic: 1, 2, 3 points and all of GF(p) as points, for every history and field type, on every run
+    for hi, hist in enumerate(POLY_HISTS):
+        for di, pdom in enumerate(POLY_DOMS):
+            for k, n in enumerate((1, 2, 3, 5)):
+                poly_jobs.append((hist, pdom, [7, 101, 65521, 5][(hi + di + k) % 4] if n < 5 else 5, n))
+    for rnd in range(14 if quick else 400):
         for hist in POLY_HISTS:
-            pdom = rng.choice(POLY_DOMS)
+            poly_jobs.append((hist, rng.choice(POLY_DOMS), None, None))
+    for hist, pdom, p, n in poly_jobs:
+        if True:
             pmax = maxcard[pdom]
-            p = rng.choice([q for q in [2, 3, 5, 7, 11, 101, 251, 65521, 2147483647, 4294967291, 94906249, rng.choice(SMALL_PRIMES), rng.choice(SMALL_PRIMES)]
-                            if q <= pmax])
-            n = rng.range(1, min(p, 9 if quick else 20))
-            if rng.chance(1, 10):
-                n = min(p, 12)                    # all of GF(p) as points when p is tiny
+            if p is None:
+                p = rng.choice([q for q in [2, 3, 5, 7, 11, 101, 251, 65521, 2147483647, 4294967291, 94906249, rng.choice(SMALL_PRIMES), rng.choice(SMALL_PRIMES)]
+                                if q <= pmax])
+                n = rng.range(1, min(p, 9 if quick else 20))
+                if rng.chance(1, 10):
+                    n = min(p, 12)                    # all of GF(p) as points when p is tiny
             pts = []
             while len(pts) < n:
                 x = rng.below(p) if p > 50 else rng.below(p)
@@ -804,7 +859,10 @@ def main(tier, replay=None):
     # ---- run both sides
     import time
     t1 = time.time()
+    inconclusive = []
     iout, ncrash, ierr = run_resilient(himpl, [c["impl"] for c in cases])
+    if "TIMEOUT" in iout:
+        inconclusive.append("implementation harness hit the time limit of the check: %d of %d cases not run" % (iout.count("TIMEOUT"), len(cases)))
     vf.log("[C14] %d cases generated in %.1fs, implementation ran in %.1fs (%d crashes)" % (len(cases), t1 - chk.t0, time.time() - t1, ncrash))
     t1 = time.time()
     if len(iout) != len(cases):
@@ -813,7 +871,10 @@ def main(tier, replay=None):
     mout = None
     if drv:
         rc, mout, merr = run_par(drv, [c["model"] for c in cases], nproc=(6 if quick else 10), timeout=1700)
-        if rc != 0 or len(mout) != len(cases):
+        if "[timeout]" in merr:
+            inconclusive.append("extracted model driver hit the time limit of the check: correspondence not compared on this run")
+            mout = None
+        elif rc != 0 or len(mout) != len(cases):
             chk.broke("model driver failed (rc=%s, %d/%d lines)" % (rc, len(mout), len(cases)), merr)
             mout = None
 
@@ -863,13 +924,14 @@ def main(tier, replay=None):
             bump("RNSsystemFixed<Integer> obtained by " + c["hist"])
             bump("RNSsystemFixed<Integer>::RnsToRing(%s)" % ("Array0<Integer>" if c["sub"] == "array0" else "vector<%s>" % c["sub"]), 2)
             bump("RNSsystemFixed n=%d%s" % (len(c["ps"]), " (grid)" if c.get("grid") else ""))
+            bump("RNSsystemFixed<Integer>::Primes (whole tree)")
         elif kind == "cra":
-            bump("ChineseRemainder<IntegerDom,%s,%s> ctor/operator()/copy" % (CXX[c["sub"]], "true" if c["red"] else "false"))
+            bump("ChineseRemainder<IntegerDom,%s,%s> ctor/operator()(res,A,e)/copy/operator()(x,x,e)" % (CXX[c["sub"]], "true" if c["red"] else "false"))
         elif kind == "lift":
             bump("ChineseRemainder<IntegerDom,%s,true> lifting chain (%s)" % (CXX[c["sub"]], c["hist"]))
         elif kind == "poly":
             bump("Poly1CRT<%s> obtained by %s" % (PCXX[c["sub"]], c["hist"]))
-            for f in ("RnsToRing", "RnsToRing (2nd)", "RingToRns(oversized dest)", "size", "ith", "Reciprocals", "reciprocal(i)"):
+            for f in ("RnsToRing", "RnsToRing (2nd, destination holds another polynomial)", "RingToRns(oversized dest)", "size", "ith", "Primes", "Reciprocals", "reciprocal(i)"):
                 bump("Poly1CRT::" + f)
 
     for i, c in enumerate(cases):
@@ -877,6 +939,8 @@ def main(tier, replay=None):
         key = "%s/%s/%s" % (kind, c.get("sub", ""), c.get("hist", ""))
         dist[key] = dist.get(key, 0) + 1
         il = iout[i]
+        if il == "TIMEOUT":
+            continue
         itoks = [t for t in il.split() if t != "|"]
         spec_ok = True
         exp_toks = None          # full expected output when the specification determines it
@@ -934,16 +998,19 @@ def main(tier, replay=None):
             elif kind == "fixed":
                 ps, rs = c["ps"], c["rs"]
                 V = crt_oracle(ps, rs)
-                exp_toks = [str(V), str(V)]
+                tree = fixed_tree_oracle(ps)
+                exp_toks = [str(V), str(V), str(len(tree))] + [str(x) for lv in tree for x in [len(lv)] + lv]
                 chk.count((kind, c["hist"], c["sub"], tuple(ps), tuple(rs)), nontrivial=(len(ps) >= 2 and V > 1))
                 form_count(kind, c)
-                if itoks != exp_toks:
+                if itoks[:2] != exp_toks[:2]:
                     spec_ok = False
                     chk.fail_input("RNSsystemFixed<Integer>::RnsToRing", "obtained by %s, %d moduli" % (c["hist"], len(ps)), c, V, il,
                                    "differs from the unique CRT value in [0, prod)")
+                # (a stored tree that differs from the model's while the conversion is still right is a broken tie, reported by the
+                #  correspondence comparison below: C14_fixed_tree would then speak about another table)
             elif kind == "cra":
                 M, D, A, e = c["M"], c["D"], c["A"], c["e"]
-                r, rcopy = [int(x) for x in il.split()]
+                r, rcopy, rinpl = [int(x) for x in il.split()]
                 chk.count((kind, c["sub"], c["red"], M, D, A, e), nontrivial=(M > 1 and e != A % D))
                 form_count(kind, c)
                 cong = (r - A) % M == 0 and (r - e) % D == 0
@@ -951,12 +1018,15 @@ def main(tier, replay=None):
                 if rcopy != r:
                     spec_ok = False
                     chk.fail_input(site, "copy of the functor answers differently", c, r, il, "a copy of the functor (original destroyed) gives another value")
+                elif rinpl != r:
+                    spec_ok = False
+                    chk.fail_input(site, "in-place call (destination is the same object as A)", c, r, il, "operator()(x, x, e) differs from operator()(res, x, e)")
                 elif not cong:
                     spec_ok = False
                     chk.fail_input(site, "wrong residue", c, "res == A (mod M), res == e (mod D)", il, "the lifted value has wrong residues")
                 elif c["red"] and 0 <= A < M:
                     V = crt_oracle([M, D], [A, e])
-                    exp_toks = [str(V), str(V)]
+                    exp_toks = [str(V), str(V), str(V)]
                     if r != V:
                         spec_ok = False
                         chk.fail_input(SITE_CRA, KLASS_CRA, c, V, il, "congruent to the CRT value but not the unique integer in [0, M*D)")
@@ -1023,8 +1093,10 @@ def main(tier, replay=None):
     else:
         fc = [c for c in cases if c["kind"] == "fixed"][:400]
         fh = [FIX_COPY_HISTS[j % len(FIX_COPY_HISTS)] for j in range(len(fc))]
-        fo, _, fe = run_resilient(hfix, ["%s %s" % (h, c["model"].split(" ", 1)[1]) for h, c in zip(fh, fc)], timeout=600)
-        if len(fo) != len(fc):
+        fo, _, fe = run_resilient(hfix, ["%s %s" % (h, c["model"].split(" ", 1)[1]) for h, c in zip(fh, fc)], timeout=900)
+        if "TIMEOUT" in fo:
+            inconclusive.append("c14_fixedcopy hit the time limit of the check")
+        elif len(fo) != len(fc):
             chk.broke("c14_fixedcopy failed", fe)
         else:
             for h, c, l in zip(fh, fc, fo):
@@ -1044,8 +1116,10 @@ def main(tier, replay=None):
             chk.broke("harness/c14_craassign.C does not compile against /repo for another reason", l4)
     else:
         ac = [c for c in cases if c["kind"] == "cra" and c["sub"] in ("mi64", "mint", "mdouble")][:300]
-        ao, _, ae = run_resilient(hasg, ["%s %d %d %d %d %d" % (c["sub"], 1 if c["red"] else 0, c["M"], c["D"], c["A"], c["e"]) for c in ac], timeout=600)
-        if len(ao) != len(ac):
+        ao, _, ae = run_resilient(hasg, ["%s %d %d %d %d %d" % (c["sub"], 1 if c["red"] else 0, c["M"], c["D"], c["A"], c["e"]) for c in ac], timeout=900)
+        if "TIMEOUT" in ao:
+            inconclusive.append("c14_craassign hit the time limit of the check")
+        elif len(ao) != len(ac):
             chk.broke("c14_craassign failed", ae)
         else:
             for c, l in zip(ac, ao):
@@ -1073,6 +1147,7 @@ def main(tier, replay=None):
                        "Poly1CRT over GF(p), p in {2,3,5,7,101,65521,2^31-1,2^32-5,...}; non-trivial = at least two moduli and value > 1; distinct = (kind, domain, history, moduli, residues)"
                        % max(lens_big))
     chk.cov["traces_validated_against_impl"] = ncorr
+    chk.cov["inconclusive_streams"] = inconclusive
     chk.cov["call_forms"] = dict(sorted(forms.items()))
     chk.cov["distribution"] = dist
     chk.cov["source_facts"] = {k: (v if isinstance(v, (str, list)) else str(v)) for k, v in facts.items()}
